@@ -1,6 +1,6 @@
 /-
   C24 — The JAX VI driver resumes after a crash with identical results.
-  Property theorems only; model: Model/CrashRe.lean (+ Model/CrashFS.lean); lemmas: Lemmas/CrashRe.lean, Lemmas/CrashFS.lean.
+  Property theorems only; model: Model/CrashRe.lean (+ Model/CrashFS.lean); lemmas: Lemmas/CrashRe.lean, Lemmas/CrashReInplace.lean, Lemmas/CrashFS.lean.
   Obligations are listed in harness/props/c24.py.
 
   Reading guide.  `S` is the pair (samples, state); `sys.step` one `OptimizeVI.update`; `iter sys.step n s0` the result of
@@ -12,6 +12,7 @@
   The protocol `.atomic` is the repaired code (fixes/C24_atomic_last_pkl.diff); `.inplace` is the code as found.
 -/
 import NiftyVerif.Lemmas.CrashRe
+import NiftyVerif.Lemmas.CrashReInplace
 
 namespace NiftyVerif.C24
 open NiftyVerif.CrashFS NiftyVerif.CrashRe
@@ -121,5 +122,30 @@ theorem inplace_witness : resumeFails .inplace 2 8 = true ∧ resumeFails .inpla
 /-- and on the same 25+ crash points the repaired protocol never fails (a *test* of the model on one instance — the
     theorem is `never_unresumable`) -/
 example : (List.range 40).all (fun k => !resumeFails .atomic 3 k) = true := by decide
+
+/-- **which crash points of the protocol as found are fatal** (DESIGN: `resume_possible_iff`): a run from the empty
+    directory killed after any number of byte-granular operations leaves last.pkl absent or holding a prefix of the pickle of
+    one of the states of the run … -/
+theorem inplace_crash_states (sys : Sys S) (hl : Lawful sys) (s0 : S) (h0 : sys.nit s0 = 0) (n k : Nat) (r0 : Bool)
+    (ops : List (Op Path)) (sf : S) (hrun : run sys .inplace r0 s0 n FS.empty = .ok (ops, sf)) :
+    GoodIn sys s0 n (crash FS.empty ops k) :=
+  inplace_crash_goodIn hl s0 h0 n k r0 ops sf hrun
+
+/-- … and from such a directory `resume=True` gets past loading **iff** last.pkl is absent or complete (pickles being
+    self-delimiting): exactly the crash points strictly between the truncation and the end of the dump are fatal. -/
+theorem resume_possible_iff (sys : Sys S) (hl : Lawful sys) (hpf : PrefixFree sys) (s0 : S) (n : Nat) (fs : FS Path)
+    (hg : GoodIn sys s0 n fs) :
+    (∃ r, run sys .inplace true s0 n fs = .ok r) ↔
+      (fs .last = none ∨ ∃ i, i ≤ n ∧ fs .last = some (sys.enc (iter sys.step i s0))) :=
+  inplace_resume_iff hl hpf s0 n fs hg
+
+/-- non-vacuity: `natSys` pickles are self-delimiting -/
+theorem natSys_prefixFree : PrefixFree natSys := by
+  intro s b hb hne
+  have hlen : b.length ≠ 4 := by
+    intro h
+    exact hne (hb.eq_of_length (by simpa [natSys] using h))
+  simp only [natSys]
+  rcases b with _ | ⟨x, _ | ⟨y, _ | ⟨z, _ | ⟨w, _ | ⟨v, r⟩⟩⟩⟩⟩ <;> simp_all
 
 end NiftyVerif.C24
